@@ -248,6 +248,15 @@ def kw_mutants(ctx, cls, args, kw, rng):
             live = [x for x in g if x in spec and not isinstance(spec[x], (T.ListAggregate, T.ListElement, T.Unsupported))]
             if len(live) < 2 or len(live) != len(g):
                 continue
+            # directed: a numeric member given as a native zero together with another member of its group, whatever the instance had
+            import decimal as _dec0
+            for num in [x for x in live if type(spec[x]) in (T.Decimal, T.Integer)]:
+                o2 = rng.choice([x for x in live if x != num]); t2 = spec[o2]
+                v2 = H.gen_instance(ctx, t2.__type__, rng, 1, 0.2) if isinstance(t2, T.SubAggregate) else H.gen_value(ctx, t2, rng)
+                if v2 is None: continue
+                m = {k: x for k, x in kw.items() if k not in live}
+                m[num] = rng.choice([_dec0.Decimal("0"), _dec0.Decimal("0.00"), _dec0.Decimal("-0")]) if type(spec[num]) is T.Decimal else 0
+                m[o2] = v2; out.append(("two-of-group-numeric-native-zero", "reject", args, m))
             have = [x for x in live if kw.get(x) is not None]
             if len(have) == 1:
                 other = rng.choice([x for x in live if x not in have]); t = spec[other]
@@ -256,6 +265,13 @@ def kw_mutants(ctx, cls, args, kw, rng):
                 m = dict(kw); m[other] = v; out.append(("two-of-group", "reject", args, m))
                 if type(spec[have[0]]) in (T.String, T.NagString):      # a member that is blank text is still a member (only "" converts to None)
                     m = dict(kw); m[other] = v; m[have[0]] = rng.choice([" ", "\t", "\u00a0", "\u3000", " \n "]); out.append(("two-of-group-one-blank", "reject", args, m))
+                # a member holding a native zero / False is still a member (seeded C04-14 counted falsy native values as absent)
+                import decimal as _dec
+                zeros = {T.Decimal: [_dec.Decimal("0"), _dec.Decimal("0.00"), _dec.Decimal("-0")], T.Integer: [0], T.Bool: [False]}
+                for who in (have[0], other):
+                    if type(spec[who]) in zeros:
+                        m = dict(kw); m[other] = v; m[who] = rng.choice(zeros[type(spec[who])])
+                        out.append(("two-of-group-one-native-zero", "reject", args, m))
                 if kind == "req":
                     m = dict(kw); del m[have[0]]; out.append(("none-of-required-group", "reject", args, m))
                     # fixed finding (2370ade): the keyword route counted "" as a present member, which then converts to None
